@@ -161,7 +161,7 @@ P("C01", Q_ADD + Q_INPUT + Q_MISC + S_MIN + S_CONF + PC_GLUE[:1] + PC_ADJUST[:2]
 P("C02", S_CELLS + Q_MISC + S_CONF + PC_GLUE[:1] + PC_ADJUST + PC_SPARSE,
   "Saved-state ring: after saving w+1 consecutive frames (the most a session holds) each of the w frames still open to rollback is loadable and returns exactly what was saved for it, for w = 1,2,3 and any base frame; load_frame moves the frame counter to the loaded frame; queue windows keep every frame from (confirmed-1) on.",
   "The request-list shape of whole advance_frame calls is decided only through these component contracts (see C01 note).")
-P("C03", Q_INPUT + Q_ADD + S_INPUTS,
+P("C03", Q_INPUT + Q_ADD + Q_MISC[2:] + S_INPUTS,
   "Input status truthfulness on the real InputQueue/SyncLayer: Confirmed <=> the frame's real input is stored, and the value is that input; Predicted => not yet received and value = predictor(newest received) (default if none), for PredictRepeatLast and PredictDefault, from any queue state; Disconnected <=> the player is disconnected as of an earlier frame, with the default input; the boundary frame (last real input) stays Confirmed.",
   "confirmed_frame() monotonicity and finality across whole sessions rest on the component contracts (see C01 note).")
 P("C05", U_LOSTACK + U_STREAM_Q + U_HANDSHAKE + U_STREAM_T,
